@@ -44,6 +44,9 @@ structure Flags where
   rxLitPrefix : Bool
   /-- `NewTagForwardReader`: `lut[idx+1] = lut[idx] + card` (true) vs. `lut[idx+1] = card` (false) -/
   lutCumulative : Bool
+  /-- `PrepareFlush` swaps the tables when `immutable == nil || immutable.IsEmpty()` (true) vs. only
+  when `immutable == nil` (false: an empty immutable table, which `Flush` never clears, blocks every later swap) -/
+  prepareOnEmpty : Bool
   deriving DecidableEq, Repr
 
 /-- contract of Go's `regexp` as used by index/kv_store.go and trie_bucket.go -/
@@ -352,10 +355,12 @@ def readAllContainers (cum : Bool) (cs : List Container) : List (SeriesId × Val
 def mergeFwdFiles (cum : Bool) (fs : List FwdFile) : FwdFile :=
   buildFwdFile (fs.flatMap (fun f => f.flatMap (fun kc => (readAllContainers cum kc.2).map (fun sv => (kc.1, sv.1, sv.2)))))
 
-/-- `PrepareFlush` of the tag-value store (`indexKVStore.PrepareFlush`): swap only when no immutable table exists -/
-def Dict.prepare (d : Dict) : Dict :=
+/-- `PrepareFlush` of the tag-value store (`indexKVStore.PrepareFlush`): swap when no immutable table
+exists (or, with `onEmpty`, when it is empty) -/
+def Dict.prepare (onEmpty : Bool) (d : Dict) : Dict :=
   match d.imm with
   | none => { d with imm := some d.mtb, mtb := [] }
+  | some [] => if onEmpty then { d with imm := some d.mtb, mtb := [] } else d
   | some _ => d
 
 /-- `indexKVStore.Flush`: nothing unless the immutable table is non-empty (it then STAYS set) -/
@@ -369,9 +374,10 @@ def Dict.flush (d : Dict) : Dict :=
 def Dict.compact (d : Dict) : Dict :=
   if d.l0.length > 1 then { d with l0 := [], l1 := [(d.l0 ++ d.l1).flatten] } else d
 
-def Inv.prepare (d : Inv) : Inv :=
+def Inv.prepare (onEmpty : Bool) (d : Inv) : Inv :=
   match d.imm with
   | none => { d with imm := some d.mtb, mtb := [] }
+  | some [] => if onEmpty then { d with imm := some d.mtb, mtb := [] } else d
   | some _ => d
 
 def Inv.flush (d : Inv) : Inv :=
@@ -383,9 +389,10 @@ def Inv.flush (d : Inv) : Inv :=
 def Inv.compact (d : Inv) : Inv :=
   if d.l0.length > 1 then { d with l0 := [], l1 := [(d.l0 ++ d.l1).flatten] } else d
 
-def Fwd.prepare (d : Fwd) : Fwd :=
+def Fwd.prepare (onEmpty : Bool) (d : Fwd) : Fwd :=
   match d.imm with
   | none => { d with imm := some d.mtb, mtb := [] }
+  | some [] => if onEmpty then { d with imm := some d.mtb, mtb := [] } else d
   | some _ => d
 
 def Fwd.flush (d : Fwd) : Fwd :=
@@ -403,10 +410,10 @@ inductive Step
   deriving DecidableEq, Repr
 
 def State.step (F : Flags) (st : State) : Step → State
-  | .prepareMeta => { st with dict := st.dict.prepare }
+  | .prepareMeta => { st with dict := st.dict.prepare F.prepareOnEmpty }
   | .flushMeta => { st with dict := st.dict.flush }
   | .compactMeta => { st with dict := st.dict.compact }
-  | .prepareIndex => { st with inv := st.inv.prepare, fwd := st.fwd.prepare }
+  | .prepareIndex => { st with inv := st.inv.prepare F.prepareOnEmpty, fwd := st.fwd.prepare F.prepareOnEmpty }
   | .flushIndex => { st with inv := st.inv.flush, fwd := st.fwd.flush }
   | .compactIndex => { st with inv := st.inv.compact, fwd := st.fwd.compact F.lutCumulative }
 
